@@ -1,7 +1,9 @@
 import Driver.Proto
+import Driver.C08
 import Driver.C09
 
 def suites : List (String × Driver.Suite) :=
+  Driver.C08.suites ++
   Driver.C09.suites
 
 def main (args : List String) : IO UInt32 := do
